@@ -233,6 +233,7 @@ class FsmWorld(pipe.PipeWorld):
             for child in list(getattr(node, 'children', {}).values()):
                 if isinstance(child, basis.DynamicContent):
                     f = child._DynamicContent__fnc
+                    f = getattr(f, '_sim_counted', f)  # worlds/fe.py wraps the table entries once more
                     if f is real or getattr(f, '_sim_real', None) is real:
                         child._DynamicContent__fnc = wrapped
                 else:
@@ -446,18 +447,6 @@ class FsmWorld(pipe.PipeWorld):
             self.pending = aegen.evolve(ch, self.spec, max_total=self.cfg['max_total'], graph_edits=False)
         c = http.HttpClient(self.sim, pipeenv.FE_PORT, 'POST', ep, {'archive': arch}, on_done=lambda c: None)
         self.http_pending.append(c)
-
-    def fsm_fields(self):
-        import dawgie.pl.farm as farm
-        import dawgie.pl.schedule as schedule
-
-        f = self.fsm
-        nodes = {t: (tuple(n.get('todo')), tuple(sorted(n.get('doing'))), tuple(sorted(n.get('do')))) for t, n in self.nodes().items()}
-        return dict(state=f.state, transitioning=f.transitioning.name, prior=f._FSM__prior, priority=f.priority, changeset=f.changeset,
-                    waits=(f.wait_on_crew.is_set(), f.wait_on_doing.is_set(), f.wait_on_todo.is_set()),
-                    threads=(id(f.crew_thread), id(f.doing_thread), id(f.todo_thread)), archive=farm.ARCHIVE,
-                    que=[j.tag for j in schedule.que], nodes=nodes, workers=len(farm._workers), busy=list(farm._busy),
-                    cluster=len(farm._cluster), paused=schedule.pipeline_paused)
 
     def bad_trigger(self):
         """C10: a trigger that is not allowed in the current state is rejected without side effects"""
